@@ -38,6 +38,8 @@ def run(chk):
             kw["n_sensors"] = int(rng.integers(0, n + 1))
         elif mode == 1:
             kw["threshold"] = float(rng.integers(0, 9)) / 8.0
+            if rng.random() < 0.25:
+                kw["threshold"] = [0, 0.0][int(rng.integers(0, 2))]       # "threshold 0 selects every sensor" also when given to the constructor
         kw["l1_penalty"] = float(rng.choice([0.01, 0.1, 0.5]))
         case = {"X": X.tolist(), "y": y.tolist(), "basis": bcfg, "ctor": kw, "ops": []}
         try:
@@ -51,7 +53,10 @@ def run(chk):
         nontriv = len({abs(v) for v in flat}) >= 2
         steps = []
         # step 0: the state right after fit
-        fit_req = ("count", kw["n_sensors"]) if mode == 0 else ("thr", float(model.threshold))
+        # what was ASKED for decides the expectation (the model's own report is compared with it, not trusted)
+        fit_req = ("count", kw["n_sensors"]) if mode == 0 else ("thr", float(kw["threshold"]) if mode == 1 else float(model.threshold))
+        if mode == 1 and float(model.threshold) != float(kw["threshold"]):
+            chk.violation("impl", "threshold-not-kept", f"constructed with threshold={kw['threshold']!r}, after fit the model reports {model.threshold!r}", {"case": case})
         steps.append((fit_req, "max"))
         ops = []
         for _ in range(int(rng.integers(2, 11 if thorough else 7))):
